@@ -218,10 +218,14 @@ def discobrackets(tree, stream, **params):
     separated from the tree by a tab (terminal space-separated).
     """
     terminals = trees.terminals(tree)
-    sentence = ' '.join([terminal.data['word'] for terminal in terminals])
+    words = [terminal.data['word'] for terminal in terminals]
+    sentence = ' '.join(words)
     for terminal in terminals:
         terminal.data['word'] = str(terminal.data['num'])
     write_brackets_subtree(tree, stream, **params)
+    # the indices are for the output only, give the tree its words back
+    for terminal, word in zip(terminals, words):
+        terminal.data['word'] = word
     stream.write("\t" + sentence + "\n")
 
 
